@@ -920,3 +920,6 @@ def pdos(chk, repo):
     chk.ob("R17.4", T + ".parse_pdos.parse_sdo", "a mapping entry is bit "
            "length, subindex, index (little endian)", ok, ps,
            "0xIIIISSLL read as '<BBH'")
+
+# added rules (appended to the explanation the evidence file carries)
+EXPLANATION += (" " + "Added during the build (DESIGN.md 4.31, second table): read_eeprom / _eeprom_read_one and EtherCat.eeprom_read by abstract execution against a model of the SII interface (4/8-byte width, busy periods, stale data registers, histories: re-read, retry after a lost datagram); the whole parse_pdos from EEPROM and CoE sources; apply_eeprom's process-data sizes.")
